@@ -1,4 +1,4 @@
-SOURCE_COMMITS = ["d2e4e29 fix: wake all waiting accepts when a connection is released (unguarded repair, C18)", "1519567 fix: make validatePositive reject non-positive integers, check subnet key lengths (unguarded repair, C20)"]
+SOURCE_COMMITS = ["d2e4e29 fix: wake all waiting accepts when a connection is released (unguarded repair, C18)", "1519567 fix: make validatePositive reject non-positive integers, check subnet key lengths (unguarded repair, C20)", "0f1a30e fix: serve zero TTL from the simple cache when no time is left (unguarded repair, C04)"]
 
 claim("C09",
       "Bounded symbolic execution of the real RequestCounter/ring buffer against a sliding-window-log reference: for every interval and every non-decreasing timestamp sequence within the bound the SMT solver shows Add's verdict equals the reference. Bounded (events, limit), full-width values.",
@@ -14,3 +14,8 @@ claim("C20",
       "The real validate methods of the rate-limit configuration section are executed with every numeric, duration and size field a full-width symbolic value; on every accepting path the solver must show the documented positivity / range facts, and the accepted values are pushed through the real consumers (toInternal, NewBackoff, IsRateLimited for an IPv4 and an IPv6 client, CountResponses, connlimiter.New) with 'no panic outcome' asserted; on every rejecting path the error message must start with the offending property name.",
       "Trusted: symgo and its models (fmt.Errorf wrapping, reflect.Value Int/Uint, go-cache janitor not run), z3. Input domain = decoded config structs (YAML parsing, env, TLS/file paths outside the claim). Consumer part bounded to counts <= 3 and size estimate >= 16 (loop lengths). Sections other than ratelimit are covered only as far as harnesses in /verif/harness/C20 exist.",
       "DESIGN.md 3 C20")
+
+claim("C04",
+      "Bounded symbolic execution of both response caches: the TTL recomputation of the simple cache (float64 kernel, FloatingPoint theory, cvc5) and of the ECS cache (integer kernel, cvc5 bv-as-int) for every 32-bit TTL and every nanosecond age; injectivity of the ECS cache key over qtype/qclass/DO/family/subnet/declined (maphash as an uninterpreted function); and the store/hit path of the ECS cache for an answer grammar (rcode, TC, answer kinds, SOA, TTL 0) against a reference cacheability predicate, with expiry and AD gating.",
+      "Trusted: symgo + models (time.Now as a harness-set clock, sync.Pool, maphash UF with the stated no-collision assumption), one-slot cache stub honouring the agdcache contract (LRU eviction internals outside the claim), cvc5/z3. Bounds: one record per section, one store followed by one lookup.",
+      "DESIGN.md 3 C04")
